@@ -63,7 +63,21 @@ def setup():
 def _pick_kinds(rng):
     from vf.gen.graphcases import AS_KINDS, RET_KINDS
 
-    return rng.choice(RET_KINDS), rng.choice(AS_KINDS)
+    # "list-dup": the caller's node list names some node twice (e.g. built by concatenating edge endpoints) - still
+    # the same node set
+    return rng.choice(RET_KINDS), (rng.choice(AS_KINDS) if rng.random() > 0.08 else "list-dup")
+
+
+def _node_arg(nodes, kind):
+    from vf.gen.graphcases import node_iterable
+
+    if kind == "list-dup":
+        out = list(nodes)
+        if out:
+            out.insert(len(out) // 2, out[-1])
+            out.append(out[0])
+        return out
+    return node_iterable(nodes, kind)
 
 
 def _mk(rng, n, edges, label_kind, **kw):
@@ -423,7 +437,7 @@ def _run_graph(case, obs):
     for name, judge in (("strongly_connected_components", judge_scc), ("topological_sort", judge_topo),
                         ("condense", judge_condense)):
         nb = Neighbors(nodes, adj, case["ret"])
-        r = call(obs, getattr(_scc, name), node_iterable(nodes, case["as"]), nb, budget=budget, what=name)
+        r = call(obs, getattr(_scc, name), _node_arg(nodes, case["as"]), nb, budget=budget, what=name)
         outside_calls += nb.outside_calls
         obs.event("call." + name)
         if is_crash(r):
